@@ -528,6 +528,15 @@ func (e *FuncEnc) contractCall(in ssa.Instruction, f *ssa.Function, c *Contract,
 			e.obligeKeep("call:"+f.Name(), "requires:"+nf.Name, nf.Formula, in.Pos())
 		}
 	}
+	if c.ArgHook != nil {
+		for _, nf := range c.ArgHook(e, argVals, args) {
+			n0 := len(e.Obls)
+			e.obligeKeep("call:"+f.Name(), "requires:"+nf.Name, nf.Formula, in.Pos())
+			if len(e.Obls) > n0 {
+				e.Obls[len(e.Obls)-1].Props = nf.Props
+			}
+		}
+	}
 	if !c.Pure {
 		keys, top, tr := e.W.ModSet(f)
 		if c.Modifies != nil {
